@@ -64,6 +64,18 @@ def run(cx):
         ob.require(mentions_field(cap.get("max_inflight", ("u",)), "max_inflight"), "capture/max", f"captured max: {show(cap.get('max_inflight'))}", call.path)
         ob.require(mentions_field(cap.get("wait_mode", ("u",)), "wait_mode"), "capture/mode", f"captured mode: {show(cap.get('wait_mode'))}", call.path)
         ob.require(is_param(cap.get("req", ("u",)), "req"), "capture/req", f"captured request: {show(cap.get('req'))}", call.path)
+        # a peer's semaphore, once created, is never removed or replaced (outstanding permits would be orphaned and a
+        # fresh semaphore with full capacity handed to the next request)
+        for cc in prog.all_calls(crates=["anemo_tower"]):
+            if cc.body.is_cleanup(cc.bb) or not cc.fn or not cc.fn.startswith("dashmap::"):
+                continue
+            if "inflight_limit.rs" not in cc.body.file:
+                continue
+            last = cc.fn.split("::")[-1]
+            ok = (name_matches(cc.fn, ("dashmap::DashMap::entry", "dashmap::DashMap::new", "dashmap::mapref::entry::Entry::or_insert_with", "dashmap::mapref::one::RefMut::value",
+                                       "dashmap::mapref::one::Ref::value", "dashmap::DashMap::get", "dashmap::DashMap::len", "dashmap::DashMap::contains_key",
+                                       "dashmap::mapref::entry::Entry::or_insert", "dashmap::mapref::entry::Entry::or_default")))
+            ob.require(ok, f"map/mutator/{last}/{owner_path(prog, cc.body)}", f"{cc.body.path} calls {cc.fn} on the per-peer semaphore map: semaphores must never be removed or replaced", cc.body.path, cc.body.loc(cc.bb))
         # layer(): shares the layer's map
         lb = cx.impl_method(f"{M}::InflightLimitLayer", "Layer", "layer")
         t = Origins(lb).of_local(0)
